@@ -52,7 +52,7 @@ def c04(sess):
     return out
 
 
-CONFORMANT = ("boot", "poll", "ack", "ack-empty", "report", "request", "render", "rerun", "persist")
+CONFORMANT = ("boot", "poll", "ack", "ack-empty", "report", "request", "render", "rerun", "persist", "query1", "query2")
 
 
 def inspection_clean(sess):
@@ -743,4 +743,164 @@ def c03(sess):
                 if status == "paused" and not pause_requested and \
                         not any(r.get("status") in ("paused", "pending") for r in st["sequence"]):
                     out.append({"what": "workflow is paused without a pause request or a paused/pending task", "step": i})
+    return out
+
+
+def _publisher_of(token):
+    """tokens are tk_<task>_<n>"""
+    if isinstance(token, str) and token.startswith("tk_"):
+        parts = token.split("_")
+        if len(parts) >= 3:
+            return parts[1]
+    return None
+
+
+def _tokens(v, acc):
+    if isinstance(v, str):
+        if v.startswith("tk_"):
+            acc.append(v)
+    elif isinstance(v, list):
+        for x in v:
+            _tokens(x, acc)
+    elif isinstance(v, dict):
+        for x in v.values():
+            _tokens(x, acc)
+    return acc
+
+
+def _ancestors(seq, prev_map):
+    """task ids reachable backwards through prev pointers from a prev map {trid: idx}"""
+    seen, todo, ids = set(), list(prev_map.values()), set()
+    while todo:
+        k = todo.pop()
+        if k in seen or k >= len(seq):
+            continue
+        seen.add(k)
+        ids.add(seq[k]["id"])
+        todo.extend(seq[k]["prev"].values())
+    return ids
+
+
+def c06(sess):
+    """Taint oracle: every token visible in an offered task's context / rendered inputs was published by a
+    causal ancestor of that task (ancestry through prev pointers); inline action tokens of the task itself
+    and workflow vars are excluded by construction (tokens only come from publishes and inline inputs)."""
+    out = []
+    stop = first_raw(sess)
+    prev = None
+    for i, (op, obs) in enumerate(sess.trace):
+        if i >= stop:
+            break
+        if prev is not None and op[0] == "get_next" and obs["result"]:
+            pst = prev["state"]["state"]
+            for o in obs["result"]:
+                sg = [s for s in pst["staged"] if s["id"] == o["id"] and s["route"] == o["route"]]
+                if len(sg) != 1:
+                    continue
+                anc = _ancestors(pst["sequence"], sg[0]["prev"])
+                key = "%s__r%s" % (o["id"], o["route"])
+                if key in pst["tasks"]:      # retry / rerun / loop: earlier executions of the task itself
+                    anc |= _ancestors(pst["sequence"], {"self": pst["tasks"][key]})
+                toks = _tokens({k: v for k, v in o["ctx"].items() if not k.startswith("__")}, [])
+                for tk in toks:
+                    pub = _publisher_of(tk)
+                    if pub is not None and pub not in anc:
+                        out.append({"what": "task %s (route %d) sees %r published by %s, which is not one of its causal "
+                                            "ancestors %s" % (o["id"], o["route"], tk, pub, sorted(anc)), "step": i})
+                        break
+        prev = obs
+    return out
+
+
+def c07(sess):
+    """Joins: offered only when the barrier is satisfied on the offered route; once per (task, route) unless
+    rerun/loop; a completed workflow with a partially satisfied unsatisfiable join is failed with an error."""
+    out = []
+    stop = first_raw(sess)
+    tasks = sess.definition.get("tasks", {})
+    edges, _roots = _def_edges(sess.definition)
+    inbound = {}
+    for (a, b) in edges:
+        inbound.setdefault(b, set()).add(a)
+    prev = None
+    reran = False
+    for i, (op, obs) in enumerate(sess.trace):
+        if i >= stop:
+            break
+        st = obs["state"]["state"]
+        if op[0] == "rerun" and obs["raised"] is None:
+            reran = True
+        if prev is not None:
+            pst = prev["state"]["state"]
+            if op[0] == "get_next" and obs["result"]:
+                for o in obs["result"]:
+                    j = tasks.get(o["id"], {}).get("join")
+                    if j is None:
+                        continue
+                    srcs = inbound.get(o["id"], set())
+                    need = len(srcs) if j == "all" else int(j)
+                    # satisfied sources on the route the join is staged on (routes of the arrivals are the same
+                    # route for a join that is not itself behind a split)
+                    sg = [s for s in pst["staged"] if s["id"] == o["id"] and s["route"] == o["route"]]
+                    got = set()
+                    if sg:
+                        for trid, k in sg[0]["prev"].items():
+                            if k < len(pst["sequence"]):
+                                p = pst["sequence"][k]
+                                if p.get("status") in COMPLETED and any(
+                                        v and t.rsplit("__t", 1)[0] == o["id"] for t, v in p["next"].items()):
+                                    got.add(p["id"])
+                    if len(got) < need:
+                        out.append({"what": "join %s offered with %d of %d required inbound tasks satisfied (%s)"
+                                            % (o["id"], len(got), need, sorted(got)), "step": i})
+            # a completed, non-canceled workflow with an unready staged join must be failed with the error logged
+            if st["status"] in ("succeeded",) and sess.tags[i] in CONFORMANT:
+                pend = [s["id"] for s in st["staged"] if not s["ready"] and tasks.get(s["id"], {}).get("join") is not None]
+                if pend:
+                    out.append({"what": "workflow succeeded while the partially satisfied join(s) %r never ran" % pend,
+                                "step": i})
+            if st["status"] == "failed" and pst["status"] not in ("failed",) and sess.tags[i] in ("report",):
+                pend = [s for s in st["staged"] if not s["ready"] and tasks.get(s["id"], {}).get("join") is not None]
+                errs = [e for e in obs["state"]["errors"] if "UnreachableJoinError" in e.get("message", "")]
+                unhandled = any(r.get("status") in ABENDED and r["id"] not in COMMANDS
+                                and not any(v and not t.startswith("continue__t") for t, v in r["next"].items())
+                                for r in st["sequence"])
+                has_fail_cmd = any(r["id"] == "fail" for r in st["sequence"])
+                other_err = [e for e in obs["state"]["errors"] if "UnreachableJoinError" not in e.get("message", "")
+                             and "Execution failed" not in e.get("message", "")]
+                if pend and not errs and not unhandled and not has_fail_cmd and not other_err:
+                    out.append({"what": "workflow failed with joins %r pending but no unreachable-join error was logged"
+                                        % [s["id"] for s in pend], "step": i})
+        prev = obs
+    # once per (task, route) for join: all tasks in acyclic, rerun-free histories
+    if not reran:
+        last = sess.trace[min(stop, len(sess.trace)) - 1][1]["state"]["state"] if sess.trace and stop > 0 else None
+        if last:
+            seen = {}
+            for r in last["sequence"]:
+                if tasks.get(r["id"], {}).get("join") == "all":
+                    seen[(r["id"], r["route"])] = seen.get((r["id"], r["route"]), 0) + 1
+            for (t, rt), n in seen.items():
+                if n > 1 and not sess.fam.get("p_loop"):
+                    out.append({"what": "join: all task %s ran %d times on route %d" % (t, n, rt),
+                                "step": min(stop, len(sess.trace)) - 1})
+    return out
+
+
+def c19(sess):
+    """Asking twice without an intervening event: same answer, and the state stays as the first call left it."""
+    out = []
+    for i in range(1, len(sess.trace)):
+        if sess.tags[i] == "query2" and sess.tags[i - 1] == "query1":
+            a, b = sess.trace[i - 1][1], sess.trace[i][1]
+            if engine.dumps_sorted(a["result"]) != engine.dumps_sorted(b["result"]):
+                out.append({"what": "second get_next_tasks answered differently: %r then %r"
+                                    % ([o["id"] for o in a["result"] or []], [o["id"] for o in b["result"] or []]), "step": i})
+            elif engine.dumps_sorted(a["state"]) != engine.dumps_sorted(b["state"]):
+                d = engine.first_difference(a["state"], b["state"])
+                out.append({"what": "second get_next_tasks changed the persisted state at %s" % (d[0] if d else "?"), "step": i})
+        if sess.trace[i][0][0] == "get_next" and sess.trace[i][1]["result"]:
+            ids = [(o["id"], o["route"]) for o in sess.trace[i][1]["result"]]
+            if ids != sorted(ids):
+                out.append({"what": "offers are not sorted by (id, route): %r" % ids, "step": i})
     return out
